@@ -713,6 +713,11 @@ package redis
 //@ ensures {C05} old(strArg(args, 0) && strArg(args, 1) && len(args.msgs) == args.index + 3 && strArg(args, 2) && toUpper(argS(args, 2)) == "XX") ==> H_calls == old(H_calls) + 1 && !H_Set_opt_NX[old(H_calls)] && H_Set_opt_XX[old(H_calls)] && !H_Set_opt_GET[old(H_calls)]
 //@ ensures {C05} old(strArg(args, 0) && strArg(args, 1) && len(args.msgs) == args.index + 3 && strArg(args, 2) && toUpper(argS(args, 2)) == "GET") ==> H_calls == old(H_calls) + 1 && !H_Set_opt_NX[old(H_calls)] && !H_Set_opt_XX[old(H_calls)] && H_Set_opt_GET[old(H_calls)]
 
+//@ executor "SELECT"
+//@ ensures {C13,C10} !old(intArg(args, 0)) ==> err != nil && conn.id == old(conn.id)
+//@ ensures {C13,C05} old(intArg(args, 0)) ==> conn.id == old(argI(args, 0))
+//@ ensures {C13} conn.authrized == old(conn.authrized)
+
 //@ executor "SCAN"
 //@ ensures {C05} H_calls == old(H_calls) + 1 ==> H_m[old(H_calls)] == "Scan" && H_conn[old(H_calls)] == conn && H_Scan_cursor[old(H_calls)] == old(argI(args, 0)) && result0 == H_res[old(H_calls)] && err == H_err[old(H_calls)]
 //@ ensures {C17} H_calls == old(H_calls) + 1 ==> H_Scan_opt_MatchPattern[old(H_calls)] != nil && isGlob(H_Scan_opt_MatchPattern[old(H_calls)])
